@@ -123,7 +123,8 @@ def expo_unify(terms):
     def lin(arg):
         """arg == c*LOG(x) -> (x, c, True);  arg == c*s for a plain symbol s -> (s, c, False);  else None"""
         a = z3.simplify(arg)
-        if a.decl().eq(S.LOG) and _sym(a.arg(0)):
+        # LOG(u) for ANY term u (a symbol or a compound such as g1 + g4): u is treated as one positive base (it occurs under LOG)
+        if a.decl().eq(S.LOG):
             return a.arg(0), Fraction(1), True
         if _sym(a):
             return a, Fraction(1), False
@@ -131,7 +132,7 @@ def expo_unify(terms):
             c, b = a.children()
             if z3.is_rational_value(c):
                 cf = Fraction(c.numerator_as_long(), c.denominator_as_long())
-                if b.decl().eq(S.LOG) and _sym(b.arg(0)):
+                if b.decl().eq(S.LOG):
                     return b.arg(0), cf, True
                 if _sym(b):
                     return b, cf, False
@@ -161,10 +162,11 @@ def expo_unify(terms):
         for _a, c in lst:
             q = q * c.denominator // math.gcd(q, c.denominator)
         # EXP(c*LOG x): W = x^(1/q) and x = W^q;  EXP(c*s): W = EXP(s/q) (the bare s stays, it is only related to W through EXP)
-        W = z3.Real(f"W_{name}" if is_log else f"WE_{name}")
+        safe = "".join(ch if ch.isalnum() else "_" for ch in name)[:40] + f"_{x.get_id()}"
+        W = z3.Real(f"W_{safe}" if is_log else f"WE_{safe}")
         dom.append(W > 0)
         for k, (atom, c) in enumerate(lst):
-            E = z3.Real(f"E_{name}_{int(is_log)}_{k}")
+            E = z3.Real(f"E_{safe}_{int(is_log)}_{k}")
             n = int(c * q)
             subs1.append((atom, E))
             subs2.append((E, W ** n if n >= 0 else 1 / (W ** (-n))))
